@@ -1,8 +1,9 @@
 //! Frame formats for the adaptor-tree scenarios: concrete helpers generated per type so that the
 //! generic tree code needs no where-clause gymnastics.
 
+use crate::raw;
 use dasp_frame::Frame;
-use dasp_sample::types::{I24, U24, U48};
+use dasp_sample::types::{I24, I48, U24, U48};
 use dasp_sample::Sample;
 use std::fmt::Debug;
 
@@ -27,8 +28,9 @@ pub trait AdFrame: Frame + Debug + 'static {
     fn fpc(q: i64) -> Self::FF;
     /// Independent statement of clip_amp: signed amplitude limited to [-t, t].
     fn clip_ref(self, t: SignedOf<Self>) -> Self;
-    /// The frame operations restated channel by channel on the *sample* operations (what C03 says
-    /// they are), so that the reference does not share the frame-level code of the implementation.
+    /// The frame operations restated channel by channel on the raw representation (raw.rs: what
+    /// C01-C03 say the sample operations are), so that the reference shares neither the frame-level
+    /// nor the sample-level code of the implementation.
     fn add_ref(self, o: Self::SF) -> Self;
     fn mul_ref(self, o: Self::FF) -> Self;
     fn scale_ref(self, g: FloatOf<Self>) -> Self;
@@ -37,9 +39,9 @@ pub trait AdFrame: Frame + Debug + 'static {
     fn select(self, other: Self) -> Self;
     fn bits(&self) -> u64;
     fn sample_bits(s: Self::Sample) -> u64;
-    /// Channels converted to f64 with the sample conversion (`to_sample::<f64>()`).
+    /// Channels decoded to f64 amplitudes (independent decoding, see raw.rs).
     fn to_f64s(self) -> Vec<f64>;
-    /// Frame from f64 channel values with the sample conversion (`to_sample::<S>()`).
+    /// Frame from f64 channel amplitudes (independent encoding, see raw.rs).
     fn from_f64s(v: &[f64]) -> Self;
     /// One least significant step of the sample format expressed in its f64 conversion
     /// (0.0 for float formats).
@@ -51,14 +53,18 @@ pub fn leaf_val(id: u32, idx: u64, ch: usize) -> f64 {
     let shift = (id / 16) as i32;
     let leaf = (id % 16) as u64;
     let k = ((idx * 13 + leaf * 29 + ch as u64 * 7) % 127) as f64 - 63.0;
-    k / 64.0 / 2f64.powi(shift)
+    // low-order dither (|d| < 2^-10, resolution 2^-41) so that wide integer formats carry
+    // full-width bit patterns, not just seven significant bits
+    let h = simcore::rng::mix(&[id as u64, idx, ch as u64]) & 0xffff_ffff;
+    let d = (h as f64 - 2_147_483_648.0) / 2f64.powi(41);
+    (k / 64.0 + d) / 2f64.powi(shift)
 }
 pub fn gain_val(id: u32, idx: u64, ch: usize) -> f64 {
     let leaf = (id % 16) as u64;
     ((idx * 5 + leaf * 3 + ch as u64) % 9) as f64 / 2.0 - 2.0
 }
 pub fn spc_val(q: i64, ch: usize) -> f64 {
-    ((q + 37 * ch as i64).rem_euclid(257) - 128) as f64 / 1024.0
+    ((q + 37 * ch as i64).rem_euclid(257) - 128) as f64 / 1024.0 + ((q + ch as i64) * 40_503).rem_euclid(509) as f64 / 17_179_869_184.0
 }
 pub fn fpc_val(q: i64, ch: usize) -> f64 {
     ((q + 3 * ch as i64).rem_euclid(17) - 8) as f64 / 8.0
@@ -80,7 +86,8 @@ macro_rules! ad_frame {
                 <Self::FF as Frame>::from_fn(|ch| gain_val(id, idx, ch).to_sample::<<$S as Sample>::Float>())
             }
             fn sparam(q: i64) -> <$S as Sample>::Signed {
-                (q as f64 / 1024.0).to_sample::<<$S as Sample>::Signed>()
+                // (low-order dither: offsets and thresholds are not multiples of a coarser format's step)
+                (q as f64 / 1024.0 + (q * 2_654_435_761).rem_euclid(1021) as f64 / 17_179_869_184.0).to_sample::<<$S as Sample>::Signed>()
             }
             fn fparam(q: i64) -> <$S as Sample>::Float {
                 (q as f64 / 8.0).to_sample::<<$S as Sample>::Float>()
@@ -92,31 +99,19 @@ macro_rules! ad_frame {
                 <Self::FF as Frame>::from_fn(|ch| fpc_val(q, ch).to_sample::<<$S as Sample>::Float>())
             }
             fn add_ref(self, o: Self::SF) -> Self {
-                <$T as Frame>::from_fn(|ch| Sample::add_amp(*self.channel(ch).unwrap(), *o.channel(ch).unwrap()))
+                <$T as Frame>::from_fn(|ch| raw::add_amp_ref::<$S>(*self.channel(ch).unwrap(), *o.channel(ch).unwrap()))
             }
             fn mul_ref(self, o: Self::FF) -> Self {
-                <$T as Frame>::from_fn(|ch| Sample::mul_amp(*self.channel(ch).unwrap(), *o.channel(ch).unwrap()))
+                <$T as Frame>::from_fn(|ch| raw::mul_amp_ref::<$S>(*self.channel(ch).unwrap(), *o.channel(ch).unwrap()))
             }
             fn scale_ref(self, g: <$S as Sample>::Float) -> Self {
-                <$T as Frame>::from_fn(|ch| Sample::mul_amp(*self.channel(ch).unwrap(), g))
+                <$T as Frame>::from_fn(|ch| raw::mul_amp_ref::<$S>(*self.channel(ch).unwrap(), g))
             }
             fn offset_ref(self, o: <$S as Sample>::Signed) -> Self {
-                <$T as Frame>::from_fn(|ch| Sample::add_amp(*self.channel(ch).unwrap(), o))
+                <$T as Frame>::from_fn(|ch| raw::add_amp_ref::<$S>(*self.channel(ch).unwrap(), o))
             }
             fn clip_ref(self, t: <$S as Sample>::Signed) -> Self {
-                <$T as Frame>::from_fn(|ch| {
-                    let s: $S = *self.channel(ch).unwrap();
-                    let x: <$S as Sample>::Signed = s.to_sample();
-                    let lo = -t;
-                    let y = if x > t {
-                        t
-                    } else if x < lo {
-                        lo
-                    } else {
-                        x
-                    };
-                    y.to_sample::<$S>()
-                })
+                <$T as Frame>::from_fn(|ch| raw::clip_ref::<$S>(*self.channel(ch).unwrap(), t))
             }
             fn reverse(self) -> Self {
                 let n = <$T as Frame>::CHANNELS;
@@ -134,18 +129,18 @@ macro_rules! ad_frame {
             fn bits(&self) -> u64 {
                 let mut h = 0u64;
                 for s in self.channels() {
-                    h = h.rotate_left(7) ^ s.to_sample::<f64>().to_bits();
+                    h = h.rotate_left(7) ^ raw::norm::<$S>(s).to_bits();
                 }
                 h
             }
             fn sample_bits(s: $S) -> u64 {
-                s.to_sample::<f64>().to_bits()
+                raw::norm::<$S>(s).to_bits()
             }
             fn to_f64s(self) -> Vec<f64> {
-                self.channels().map(|s| s.to_sample::<f64>()).collect()
+                self.channels().map(|s| raw::norm::<$S>(s)).collect()
             }
             fn from_f64s(v: &[f64]) -> Self {
-                <$T as Frame>::from_fn(|ch| v[ch].to_sample::<$S>())
+                <$T as Frame>::from_fn(|ch| raw::from_norm::<$S>(v[ch]))
             }
             fn lsb_f64() -> f64 {
                 if Self::IS_FLOAT {
@@ -180,3 +175,180 @@ ad_frame!("[i8;4]", [i8; 4], i8);
 ad_frame!("[i32;12]", [i32; 12], i32);
 ad_frame!("[f32;9]", [f32; 9], f32);
 ad_frame!("[i16;12]", [i16; 12], i16);
+// --- formats used only by the static-stack format sweep (every sample type mono and stereo, every
+// channel count 3..=32 with two sample types each)
+ad_frame!("i8", i8, i8);
+ad_frame!("[i8;2]", [i8; 2], i8);
+ad_frame!("I24", I24, I24);
+ad_frame!("i32", i32, i32);
+ad_frame!("I48", I48, I48);
+ad_frame!("[I48;2]", [I48; 2], I48);
+ad_frame!("[i64;2]", [i64; 2], i64);
+ad_frame!("[u8;2]", [u8; 2], u8);
+ad_frame!("u16", u16, u16);
+ad_frame!("[u16;2]", [u16; 2], u16);
+ad_frame!("U24", U24, U24);
+ad_frame!("[U24;2]", [U24; 2], U24);
+ad_frame!("u32", u32, u32);
+ad_frame!("[u32;2]", [u32; 2], u32);
+ad_frame!("U48", U48, U48);
+ad_frame!("u64", u64, u64);
+ad_frame!("[u64;2]", [u64; 2], u64);
+ad_frame!("[I48;3]", [I48; 3], I48);
+ad_frame!("[i32;3]", [i32; 3], i32);
+ad_frame!("[u32;4]", [u32; 4], u32);
+ad_frame!("[u8;4]", [u8; 4], u8);
+ad_frame!("[i8;5]", [i8; 5], i8);
+ad_frame!("[u32;5]", [u32; 5], u32);
+ad_frame!("[i64;6]", [i64; 6], i64);
+ad_frame!("[f32;6]", [f32; 6], f32);
+ad_frame!("[U48;7]", [U48; 7], U48);
+ad_frame!("[i16;7]", [i16; 7], i16);
+ad_frame!("[I48;8]", [I48; 8], I48);
+ad_frame!("[u8;9]", [u8; 9], u8);
+ad_frame!("[u16;9]", [u16; 9], u16);
+ad_frame!("[u64;10]", [u64; 10], u64);
+ad_frame!("[U48;10]", [U48; 10], U48);
+ad_frame!("[I24;11]", [I24; 11], I24);
+ad_frame!("[f64;11]", [f64; 11], f64);
+ad_frame!("[u16;12]", [u16; 12], u16);
+ad_frame!("[I24;12]", [I24; 12], I24);
+ad_frame!("[f32;13]", [f32; 13], f32);
+ad_frame!("[i64;13]", [i64; 13], i64);
+ad_frame!("[i32;14]", [i32; 14], i32);
+ad_frame!("[U24;14]", [U24; 14], U24);
+ad_frame!("[U24;15]", [U24; 15], U24);
+ad_frame!("[u64;15]", [u64; 15], u64);
+ad_frame!("[f64;16]", [f64; 16], f64);
+ad_frame!("[i8;16]", [i8; 16], i8);
+ad_frame!("[I48;17]", [I48; 17], I48);
+ad_frame!("[i32;17]", [i32; 17], i32);
+ad_frame!("[u32;18]", [u32; 18], u32);
+ad_frame!("[u8;18]", [u8; 18], u8);
+ad_frame!("[i8;19]", [i8; 19], i8);
+ad_frame!("[u32;19]", [u32; 19], u32);
+ad_frame!("[i64;20]", [i64; 20], i64);
+ad_frame!("[f32;20]", [f32; 20], f32);
+ad_frame!("[U48;21]", [U48; 21], U48);
+ad_frame!("[i16;21]", [i16; 21], i16);
+ad_frame!("[i16;22]", [i16; 22], i16);
+ad_frame!("[I48;22]", [I48; 22], I48);
+ad_frame!("[u8;23]", [u8; 23], u8);
+ad_frame!("[u16;23]", [u16; 23], u16);
+ad_frame!("[u64;24]", [u64; 24], u64);
+ad_frame!("[U48;24]", [U48; 24], U48);
+ad_frame!("[I24;25]", [I24; 25], I24);
+ad_frame!("[f64;25]", [f64; 25], f64);
+ad_frame!("[u16;26]", [u16; 26], u16);
+ad_frame!("[I24;26]", [I24; 26], I24);
+ad_frame!("[f32;27]", [f32; 27], f32);
+ad_frame!("[i64;27]", [i64; 27], i64);
+ad_frame!("[i32;28]", [i32; 28], i32);
+ad_frame!("[U24;28]", [U24; 28], U24);
+ad_frame!("[U24;29]", [U24; 29], U24);
+ad_frame!("[u64;29]", [u64; 29], u64);
+ad_frame!("[f64;30]", [f64; 30], f64);
+ad_frame!("[i8;30]", [i8; 30], i8);
+ad_frame!("[I48;31]", [I48; 31], I48);
+ad_frame!("[i32;31]", [i32; 31], i32);
+ad_frame!("[u32;32]", [u32; 32], u32);
+ad_frame!("[u8;32]", [u8; 32], u8);
+
+pub const N_SWEEP: usize = 88;
+/// Call a generic function with the `idx`-th format of the sweep list.
+#[macro_export]
+macro_rules! with_sweep_format {
+    ($idx:expr, $f:ident, $($arg:expr),*) => {
+        match $idx {
+            0 => $f::<i8>($($arg),*),
+            1 => $f::<[i8; 2]>($($arg),*),
+            2 => $f::<i16>($($arg),*),
+            3 => $f::<[i16; 2]>($($arg),*),
+            4 => $f::<dasp_sample::types::I24>($($arg),*),
+            5 => $f::<[dasp_sample::types::I24; 2]>($($arg),*),
+            6 => $f::<i32>($($arg),*),
+            7 => $f::<[i32; 2]>($($arg),*),
+            8 => $f::<dasp_sample::types::I48>($($arg),*),
+            9 => $f::<[dasp_sample::types::I48; 2]>($($arg),*),
+            10 => $f::<i64>($($arg),*),
+            11 => $f::<[i64; 2]>($($arg),*),
+            12 => $f::<u8>($($arg),*),
+            13 => $f::<[u8; 2]>($($arg),*),
+            14 => $f::<u16>($($arg),*),
+            15 => $f::<[u16; 2]>($($arg),*),
+            16 => $f::<dasp_sample::types::U24>($($arg),*),
+            17 => $f::<[dasp_sample::types::U24; 2]>($($arg),*),
+            18 => $f::<u32>($($arg),*),
+            19 => $f::<[u32; 2]>($($arg),*),
+            20 => $f::<dasp_sample::types::U48>($($arg),*),
+            21 => $f::<[dasp_sample::types::U48; 2]>($($arg),*),
+            22 => $f::<u64>($($arg),*),
+            23 => $f::<[u64; 2]>($($arg),*),
+            24 => $f::<f32>($($arg),*),
+            25 => $f::<[f32; 2]>($($arg),*),
+            26 => $f::<f64>($($arg),*),
+            27 => $f::<[f64; 2]>($($arg),*),
+            28 => $f::<[dasp_sample::types::I48; 3]>($($arg),*),
+            29 => $f::<[i32; 3]>($($arg),*),
+            30 => $f::<[u32; 4]>($($arg),*),
+            31 => $f::<[u8; 4]>($($arg),*),
+            32 => $f::<[i8; 5]>($($arg),*),
+            33 => $f::<[u32; 5]>($($arg),*),
+            34 => $f::<[i64; 6]>($($arg),*),
+            35 => $f::<[f32; 6]>($($arg),*),
+            36 => $f::<[dasp_sample::types::U48; 7]>($($arg),*),
+            37 => $f::<[i16; 7]>($($arg),*),
+            38 => $f::<[i16; 8]>($($arg),*),
+            39 => $f::<[dasp_sample::types::I48; 8]>($($arg),*),
+            40 => $f::<[u8; 9]>($($arg),*),
+            41 => $f::<[u16; 9]>($($arg),*),
+            42 => $f::<[u64; 10]>($($arg),*),
+            43 => $f::<[dasp_sample::types::U48; 10]>($($arg),*),
+            44 => $f::<[dasp_sample::types::I24; 11]>($($arg),*),
+            45 => $f::<[f64; 11]>($($arg),*),
+            46 => $f::<[u16; 12]>($($arg),*),
+            47 => $f::<[dasp_sample::types::I24; 12]>($($arg),*),
+            48 => $f::<[f32; 13]>($($arg),*),
+            49 => $f::<[i64; 13]>($($arg),*),
+            50 => $f::<[i32; 14]>($($arg),*),
+            51 => $f::<[dasp_sample::types::U24; 14]>($($arg),*),
+            52 => $f::<[dasp_sample::types::U24; 15]>($($arg),*),
+            53 => $f::<[u64; 15]>($($arg),*),
+            54 => $f::<[f64; 16]>($($arg),*),
+            55 => $f::<[i8; 16]>($($arg),*),
+            56 => $f::<[dasp_sample::types::I48; 17]>($($arg),*),
+            57 => $f::<[i32; 17]>($($arg),*),
+            58 => $f::<[u32; 18]>($($arg),*),
+            59 => $f::<[u8; 18]>($($arg),*),
+            60 => $f::<[i8; 19]>($($arg),*),
+            61 => $f::<[u32; 19]>($($arg),*),
+            62 => $f::<[i64; 20]>($($arg),*),
+            63 => $f::<[f32; 20]>($($arg),*),
+            64 => $f::<[dasp_sample::types::U48; 21]>($($arg),*),
+            65 => $f::<[i16; 21]>($($arg),*),
+            66 => $f::<[i16; 22]>($($arg),*),
+            67 => $f::<[dasp_sample::types::I48; 22]>($($arg),*),
+            68 => $f::<[u8; 23]>($($arg),*),
+            69 => $f::<[u16; 23]>($($arg),*),
+            70 => $f::<[u64; 24]>($($arg),*),
+            71 => $f::<[dasp_sample::types::U48; 24]>($($arg),*),
+            72 => $f::<[dasp_sample::types::I24; 25]>($($arg),*),
+            73 => $f::<[f64; 25]>($($arg),*),
+            74 => $f::<[u16; 26]>($($arg),*),
+            75 => $f::<[dasp_sample::types::I24; 26]>($($arg),*),
+            76 => $f::<[f32; 27]>($($arg),*),
+            77 => $f::<[i64; 27]>($($arg),*),
+            78 => $f::<[i32; 28]>($($arg),*),
+            79 => $f::<[dasp_sample::types::U24; 28]>($($arg),*),
+            80 => $f::<[dasp_sample::types::U24; 29]>($($arg),*),
+            81 => $f::<[u64; 29]>($($arg),*),
+            82 => $f::<[f64; 30]>($($arg),*),
+            83 => $f::<[i8; 30]>($($arg),*),
+            84 => $f::<[dasp_sample::types::I48; 31]>($($arg),*),
+            85 => $f::<[i32; 31]>($($arg),*),
+            86 => $f::<[u32; 32]>($($arg),*),
+            87 => $f::<[u8; 32]>($($arg),*),
+            _ => unreachable!(),
+        }
+    };
+}
